@@ -224,7 +224,7 @@ func runC20(c *Ctx) {
 		op.text2 = c20text(g)
 		op.form = g.Chance(2)
 		op.query = g.Chance(3)
-		op.method = pick(g, "POST", "DELETE", "PATCH", "HEAD", "OPTIONS", "put", "")
+		op.method = pick(g, "POST", "DELETE", "PATCH", "HEAD", "OPTIONS", "put", "", "Put", "pUT", "get", "Get", "TRACE", "CONNECT", "PUTT", "GE")
 		op.ctype = pick(g, "", "application/json", "text/plain", "application/x-www-form-urlencoded; charset=utf-8", "APPLICATION/JSON")
 		op.chunk = 1 + g.Draw(16)
 		if f.Chance(4) {
@@ -356,9 +356,10 @@ func runC20(c *Ctx) {
 			}
 			if op.kind == c20OtherMethod {
 				method = op.method
-				if method == "" || method == "put" {
+				if method == "" {
 					method = "POST"
 				}
+				// method tokens are case-sensitive: "put" and "Get" are other methods
 				body = `{"level":"debug"}`
 			}
 			fr := &faultyReader{data: []byte(body), chunk: op.chunk, at: -1, fired: &readsFired}
